@@ -14,7 +14,21 @@ MODES = ["1", "L", "LA", "P", "PA", "RGB", "RGBA", "CMYK", "HSV"]
 
 
 def make_image(spec):
-    """Deterministic image from a spec: mode, size, seed, kind."""
+    """Deterministic image from a spec: mode, size, seed, kind; "frames": n > 1 gives an
+    animated GIF (opened from memory) whose first frame is the image described."""
+    n = spec.get("frames", 1)
+    if n > 1:
+        import io
+        first = make_still({**spec, "mode": "RGB"})
+        frames = [first] + [first.point(lambda v, k=k: (v + 40 * k) % 256) for k in range(1, n)]
+        buf = io.BytesIO()
+        frames[0].save(buf, format="GIF", save_all=True, append_images=frames[1:], duration=50, loop=0)
+        buf.seek(0)
+        return Image.open(buf)
+    return make_still(spec)
+
+
+def make_still(spec):
     rng = random.Random(spec["seed"])
     w, h = spec["size"]
     kind = spec.get("kind", "random")
